@@ -62,6 +62,8 @@ type interpreter struct {
 	params          map[string]string
 	work            [][]decision
 	violated        map[string]int
+	unknowns        int // solver time-outs in the current job
+	slow            int // queries decided only after more than a third of the time-out
 	maxViolPerLabel int
 	concreteMode    bool
 	concreteInputs  []uint64
